@@ -15,6 +15,7 @@ def run(rep):
     l2(rep, w)
     l3(rep, w)
     l4(rep, w)
+    l5(rep, w)
 
 
 def first_getter_from(f, b, limit=6):
@@ -139,6 +140,7 @@ def l2(rep, w):
     r = rep.rule('L2', 'Chunk.code and Chunk.lines grow only together in Chunk::write; runtime_error reads the line of the frame\'s own chunk', floor=4)
     grow = ('push', 'insert', 'extend', 'extend_from_slice', 'resize', 'truncate', 'pop', 'remove', 'clear', 'append', 'drain', 'retain', 'splice')
     sites = {}
+    chunk_field_ty = {fd['n']: c.tstr(fd['t']) for fd in c.adts['yarel::chunk::Chunk']['variants'][0]['fields']}
     for f in c.fns.values():
         org = None
         for bi, t in f.calls():
@@ -153,9 +155,9 @@ def l2(rep, w):
             for q in org.get(pl['l'], ()):
                 for fld in ('code', 'lines'):
                     if fld in q:
-                        # make sure it is a Chunk's field: the receiver element type is u8 / i32
+                        # make sure it is a Chunk's field: the receiver has the type Chunk declares for that field
                         et = c.ty(c.peel_refs(pl.get('t', f.local_ty(pl['l']))))
-                        if et.get('n') == 'std::vec::Vec' and c.tstr(et['a'][0]) in ('u8', 'i32'):
+                        if et.get('n') == 'std::vec::Vec' and et.get('s') == chunk_field_ty[fld]:
                             sites.setdefault(f.path, []).append((fld, n.rsplit('::', 1)[-1], bi))
     wr = 'yarel::chunk::Chunk::write'
     for p, ss in sorted(sites.items()):
@@ -302,3 +304,35 @@ def l4(rep, w):
             if d.get('p') and isinstance(d['p'][-1], dict) and d['p'][-1].get('n') == 'error_ip':
                 sets = True
     r.check(sets, 'throw_impl records the throw site', 'throw_impl no longer records error_ip', t.loc())
+
+
+INT_BITS = {'u8': 8, 'i8': 8, 'u16': 16, 'i16': 16, 'u32': 32, 'i32': 32, 'u64': 64, 'i64': 64, 'usize': 64, 'isize': 64, 'u128': 128, 'i128': 128}
+
+
+def l5(rep, w):
+    """a line number travels from the scanner's counter (usize) to the line table without passing a type narrower than 32 bits
+    (sources with 2^31 lines or more are outside the claim)"""
+    c = w.yarel
+    r = rep.rule('L5', 'line numbers are stored and carried in at least 32 bits from the token to the chunk\'s line table and back to the report', floor=4)
+    el = {fd['n']: c.ty(fd['t']) for fd in c.adts['yarel::chunk::Chunk']['variants'][0]['fields']}['lines']
+    et = c.tstr(el['a'][0])
+    r.check(INT_BITS.get(et, 0) >= 32, 'Chunk.lines element type %s' % et, 'the line table stores lines as %s: line numbers above its range wrap around in every trace' % et)
+    tok = {fd['n']: c.tstr(fd['t']) for fd in c.adts['yarel::scanner::Token']['variants'][0]['fields']}
+    r.check(INT_BITS.get(tok.get('line'), 0) >= 32, 'Token.line type %s' % tok.get('line'), 'tokens carry their line as %s' % tok.get('line'))
+    callers = [f for f in c.fns.values() if any(callee_name(t) == 'yarel::chunk::Chunk::write' for _, t in f.calls())]
+    if len(callers) < 2:
+        raise Broken('C17', 'floor', 'callers of Chunk::write: %d' % len(callers))
+    for f in sorted(callers, key=lambda x: x.path) + [w.require_fn(VM + 'runtime_error', 'C17')]:
+        narrow = []
+        for b in f.blocks:
+            for s_ in b['s']:
+                rr = s_.get('r', {})
+                if rr.get('rv') == 'cast' and 'IntToInt' in rr.get('ck', ''):
+                    src = op_place(rr['o'])
+                    if src is None:
+                        continue
+                    st = c.tstr(src.get('t', f.local_ty(src['l'])))
+                    dt = c.tstr(s_['d'].get('t', f.local_ty(s_['d']['l'])))
+                    if INT_BITS.get(st, 0) >= 32 and 0 < INT_BITS.get(dt, 0) < 32 and 'line' in operand_fields(f, origins(f), rr['o']):
+                        narrow.append('%s as %s' % (st, dt))
+        r.check(not narrow, '%s: no narrowing of a line number' % f.path.rsplit('::', 1)[-1], '%s narrows a line number (%s)' % (f.path, ', '.join(narrow)), f.loc())
